@@ -1,5 +1,6 @@
 """Expression evaluation (symbolic), shared by repository code and spec clauses."""
 import ast
+import re
 import z3
 
 from .types import Ty, INT, REAL, BOOL, STR, NONE, ANY, FN, parse_type, base_sort
@@ -18,7 +19,9 @@ SPEC_BUILTINS = ('forall', 'exists', 'implies', 'iff', 'old', 'at', 'ite', 'fora
                  'exists_ref', 'allocated', 'fresh', 'typeof', 'unchanged', 'card',
                  'select', 'floor_div', 'truthy', 'is_none', 'dyn_is', 'subset',
                  'set_eq', 'set_minus', 'set_union', 'set_add', 'set_del', 'empty_set',
-                 'disjoint', 'has_key', 'keys_eq', 'seq_eq', 'let', 'setof', 'dq_lo', 'dq_hi', 'dq_at')
+                 'disjoint', 'has_key', 'keys_eq', 'seq_eq', 'let', 'setof', 'dq_lo', 'dq_hi', 'dq_at',
+                 'bi8', 'bu8', 'bi16', 'bu16', 'bu24', 'bi32', 'bu32', 'bi64', 'bcat', 'braw', 'bempty', 'blen', 'beq',
+                 'written', 'content', 'utf8', 'bmark', 'since')
 
 
 class Ctx(object):
@@ -210,6 +213,10 @@ class ExprMixin(object):
       return V(ty, items=[self.fresh_val(st, a, '%s_%d' % (name, n), wf) for n, a in enumerate(ty.args)], none=none)
     if ty.k == 'none':
       return NONE_V
+    if ty.k == 'bytes':
+      ln = z3.Int(fresh_name(name + '_len'))
+      st.assume(ln >= 0)
+      return V(ty, py=[('raw', z3.Int(fresh_name(name)), ln)])
     if ty.k == 'int':
       v = V(ty, z3.Int(fresh_name(name)))
     elif ty.k == 'real':
@@ -252,6 +259,9 @@ class ExprMixin(object):
       if isinstance(n, ast.FunctionDef):
         return VFunc(n, mod, None, None, name)
       if isinstance(n, ast.ClassDef):
+        for cname, ci in self.reg.classes.items():     # declared under another registry name?
+          if ci.file == mod.relpath and ci.path == name:
+            return VClass(cname)
         if name in self.reg.classes:
           return VClass(name)
         raise Unsupported('class %s not declared in sidecar' % name)
@@ -328,7 +338,8 @@ class ExprMixin(object):
     elif isinstance(c, str):
       yield st, self.const_str(c)
     elif isinstance(c, bytes):
-      yield st, V(STR, z3.IntVal(self.strs.get(c)), py=c)
+      from .bytesalg import mk_bytes, const_atoms
+      yield st, mk_bytes(const_atoms(c))
     else:
       raise Unsupported('constant %r' % (c,))
 
@@ -605,8 +616,22 @@ class ExprMixin(object):
 
   def binop(self, st, cx, op, a, b, node):
     if isinstance(op, ast.Mod) and isinstance(a, V) and a.ty.k == 'str':
+      from .bytesalg import FmtTemplate
+      if isinstance(a.py, str) and re.match(r'^[!<>=@]?([0-9]*[a-zA-Z]|%d[a-zA-Z])+$', a.py) and '%d' in a.py:
+        # a struct format with %d holes: keep it symbolic for pack/unpack
+        items = b.items if (isinstance(b, V) and b.ty.k == 'tuple') else [b]
+        yield st, V(STR, z3.IntVal(0), py=FmtTemplate(a.py, [num_term(x, False) for x in items]))
+        return
       # '%' string formatting: opaque result
       yield st, self.fresh_val(st, STR, 'fmt')
+      return
+    if isinstance(op, ast.Add) and isinstance(a, V) and isinstance(b, V) and a.ty.k == 'bytes' and b.ty.k == 'bytes':
+      from .bytesalg import mk_bytes
+      yield st, mk_bytes(list(a.py) + list(b.py))
+      return
+    if isinstance(op, ast.Add) and isinstance(a, V) and isinstance(b, V) and {a.ty.k, b.ty.k} == {'bytes', 'str'}:
+      for o in self.oblige_or_raise(st, cx, z3.BoolVal(False), 'TypeError', node, "can't concat str to bytes"):
+        yield o
       return
     if isinstance(op, ast.Add) and isinstance(a, V) and isinstance(b, V) and a.ty.k == 'str' and b.ty.k == 'str':
       if a.py is not None and b.py is not None and type(a.py) == type(b.py):
@@ -726,6 +751,10 @@ class ExprMixin(object):
     if a.ty.k == 'none' or b.ty.k == 'none':
       o = b if a.ty.k == 'none' else a
       return self.is_none(o)
+    if a.ty.k == 'bytes' and b.ty.k == 'bytes':
+      from .bytesalg import atoms_eq
+      r = atoms_eq(a.py, b.py)
+      return r if r is not None else z3.BoolVal(False)
     if a.ty.k == 'tuple' and b.ty.k == 'tuple':
       if len(a.items) != len(b.items):
         return z3.BoolVal(False)
